@@ -58,7 +58,9 @@ def materialise(v: dict, root: str) -> str:
                 body.append("")
             body.append(f"      {fn}: {ft}" + ("  # a field" if pl["comments"] > 1 else ""))
     unrelated = ["  UNREL%d:\n    id: %d\n    fields:\n      q: int16\n      r: int16" % (i, 2000 + i) for i in range(pl["unrelated"])]
-    other = "struct_defs:\n  OTHER_S:\n    fields:\n      x: int32\nconstants:\n  OTHER_C: 3\n"
+    sbody = "      x: int32\n" + ("      y: int32\n" if pl.get("structbody", 0) else "")
+    other = "struct_defs:\n  OTHER_S:\n    fields:\n" + sbody + "constants:\n  OTHER_C: 3\n"
+    uses_struct = any("OTHER_S" in ft for _, ft in d["fields"])
     os.makedirs(os.path.join(root, "sub", "deep"), exist_ok=True)
     _write(os.path.join(root, "other.yaml"), other)
     target = "\n".join(["message_defs:"] + unrelated[: len(unrelated) // 2] + body + unrelated[len(unrelated) // 2:]) + "\n"
@@ -68,7 +70,8 @@ def materialise(v: dict, root: str) -> str:
         rootdoc = "imports:\n" + "".join(f"  - {i}\n" for i in imps) + blanks + "constants:\n  ROOT_C: 1\n" + blanks + target
     else:
         rel = "imp.yaml" if pl["file"] == "imported" else "sub/deep/imp.yaml"
-        _write(os.path.join(root, rel), ("# moved here\n" if pl["comments"] else "") + target)
+        back = "other.yaml" if pl["file"] == "imported" else "../../other.yaml"
+        _write(os.path.join(root, rel), ("# moved here\n" if pl["comments"] else "") + (f"imports:\n  - {back}\n" if uses_struct else "") + target)
         if pl["file"] == "nested":
             # root -> sub/mid.yaml -> deep/imp.yaml (path relative to the importing file)
             _write(os.path.join(root, "sub", "mid.yaml"), "imports:\n  - deep/imp.yaml\nconstants:\n  MID_C: 2\n")
@@ -244,13 +247,13 @@ def run(tier: str, seed: int) -> Dict[str, Any]:
                     same_h = hashes[i] == hashes[j]
                     if same_c and not same_h:
                         acts = [beh[k]["a"] for k in range(i + 1, j + 1)]
-                        noise = [a for a in acts if a.startswith(("Add", "MoveTo", "Hex", "Reorder", "Recompile"))]
+                        noise = [a for a in acts if a.startswith(("Add", "MoveTo", "Hex", "Reorder", "Recompile", "EditUsedStruct"))]
                         kind = "LocationDependent" if any(a.startswith(("MoveTo", "Reorder")) for a in noise) else "SensitiveToNoise"
                         viol.append({"signature": f"C13/{kind}/{'+'.join(sorted(set(noise))) or 'edits-cancel'}",
                                      "replay": {"behaviour": beh[i: j + 1], "hashes": hashes[i: j + 1]}})
                     if not same_c and same_h:
                         acts = [beh[k]["a"] for k in range(i + 1, j + 1)]
-                        edits = [a for a in acts if not a.startswith(("Add", "MoveTo", "Hex", "Reorder", "Recompile"))]
+                        edits = [a for a in acts if not a.startswith(("Add", "MoveTo", "Hex", "Reorder", "Recompile", "EditUsedStruct"))]
                         viol.append({"signature": f"C13/InsensitiveToEdit/{'+'.join(sorted(set(edits)))}",
                                      "replay": {"behaviour": beh[i: j + 1], "hashes": hashes[i: j + 1]}})
         # ---- in-place rebuilds: one project directory, edited and recompiled version after version ------
@@ -359,6 +362,8 @@ def _send_case(args):
             try:
                 if kind == "message":
                     c.send_message(msg, dest_mod_id=dst, dest_host_id=dhost)
+                elif kind == "message0":
+                    c.send_message(cd.MDF_EXIT(), dest_mod_id=dst, dest_host_id=dhost)
                 elif kind == "signal":
                     c.send_signal(cd.MT_EXIT, dest_mod_id=dst, dest_host_id=dhost)
                 else:
@@ -376,7 +381,7 @@ def _send_case(args):
                 if new:
                     bad.append((f"ClientSend/refusal-wrote-bytes:{kind}", new[:16].hex()))
                 continue
-            want_len = hs + (4 if kind != "signal" else 0)
+            want_len = hs + (4 if kind in ("message", "forward") else 0)
             if len(new) != want_len:
                 bad.append((f"ClientSend/frame-length:{kind}", f"{len(new)} != {want_len}"))
                 continue
@@ -388,6 +393,8 @@ def _send_case(args):
                 bad.append((f"ClientSend/addressing:{kind}", f"src {smod}/{shost} dst {dm}/{dh}"))
             if kind == "message" and ver != cd.MDF_MODULE_READY.type_hash:
                 bad.append(("C13/NotStamped/send_message", f"version {ver:#x}"))
+            if kind == "message0" and (ver != cd.MDF_EXIT.type_hash or mt != cd.MT_EXIT):
+                bad.append(("C13/NotStamped/send_message:no-fields", f"type {mt} version {ver:#x}"))
         c._connected = False
     finally:
         C.select, C.time = saved
